@@ -355,6 +355,11 @@ impl Memfs {
         // ourselves out.
         let mut entries = self.entries(&opts.path)?.contents_first();
 
+        // Refuse a malformed symbolic expression before anything gets changed
+        if !opts.sym.is_empty() {
+            sys::mode(&self.entry(&opts.path)?, 0, &opts.sym)?;
+        }
+
         // Set the `max_depth` based on recursion
         entries = entries.max_depth(match opts.recursive {
             true => usize::MAX,
